@@ -1,10 +1,104 @@
 import Dmn.Model.Sexp
+import Dmn.Model.DecisionTable
 
-/-! Driver handler for C03 — not implemented yet. -/
+/-!
+Driver handler for C03.
+
+`(c03 eval <hitPolicy-attr> <aggregation-attr> (name…) (cell…) (cell…) (rule…))`
+
+* attribute: `none` or `(s cp…)` (the attribute text after `trim()`),
+* cell: `none` | `other` | `(el v…)`,
+* rule: `((t|f|o …) (v…))`,
+* value: `null` | `(b true)` | `(n 5)` | `(s cp…)` | `(a kind (s cp…))` | `(l v…)` | `(c ((s cp…) v)…)`.
+
+Answer: `(<model outcome> <spec value> <number of matching rules>)` with outcome
+`(ok v)` | `(panic site)` | `(error)`; `(bad-hit-policy)` when the attributes do not parse.
+The value codec is shared with the C11 / C12 handlers.
+-/
 
 namespace Dmn.Driver.C03
-open Dmn
+open Dmn Dmn.DT
 
-def handle (_args : List Sexp) : String := "(error not-implemented)"
+def kindOf : String → Option AKind
+  | "date" => some .date
+  | "time" => some .time
+  | "dateTime" => some .dateTime
+  | "dtDur" => some .dtDur
+  | "ymDur" => some .ymDur
+  | _ => none
+
+def kindStr : AKind → String
+  | .date => "date" | .time => "time" | .dateTime => "dateTime" | .dtDur => "dtDur" | .ymDur => "ymDur"
+
+partial def valueOf : Sexp → Option DTValue
+  | .atom "null" => some .null
+  | .list [.atom "b", b] => (Sexp.bool? b).map DTValue.bool
+  | .list [.atom "n", n] => (Sexp.int? n).map DTValue.num
+  | .list [.atom "a", .atom k, t] => do
+    let k ← kindOf k
+    let t ← Sexp.chars? t
+    pure (.atom k t)
+  | .list (.atom "s" :: cs) => (Sexp.chars? (.list (.atom "s" :: cs))).map DTValue.str
+  | .list (.atom "l" :: xs) => (xs.mapM valueOf).map DTValue.list
+  | .list (.atom "c" :: es) =>
+    (es.mapM (fun (e : Sexp) => match e with
+      | Sexp.list [k, v] => do
+        let k ← Sexp.chars? k
+        let v ← valueOf v
+        pure (k, v)
+      | _ => none)).map DTValue.ctx
+  | _ => none
+
+partial def valueStr : DTValue → String
+  | .null => "null"
+  | .bool b => s!"(b {b})"
+  | .num n => s!"(n {n})"
+  | .str s => toString (Sexp.ofChars s)
+  | .atom k t => s!"(a {kindStr k} {Sexp.ofChars t})"
+  | .list xs => "(" ++ " ".intercalate ("l" :: xs.map valueStr) ++ ")"
+  | .ctx es => "(" ++ " ".intercalate ("c" :: es.map (fun (k, v) => s!"({Sexp.ofChars k} {valueStr v})")) ++ ")"
+
+def outcomeStr : Outcome DTValue → String
+  | .ok v => s!"(ok {valueStr v})"
+  | .error _ => "(error)"
+  | .panic s => s!"(panic {(s.splitOn " ").headD ""})"
+
+def cellOf : Sexp → Option Cell
+  | .atom "none" => some .none
+  | .atom "other" => some .other
+  | .list (.atom "el" :: vs) => (vs.mapM valueOf).map Cell.exprList
+  | _ => none
+
+def triOf : Sexp → Option Tri
+  | .atom "t" => some .t
+  | .atom "f" => some .f
+  | .atom "o" => some .o
+  | _ => none
+
+def ruleOf : Sexp → Option Rule
+  | .list [.list ins, .list outs] => do
+    let ins ← ins.mapM triOf
+    let outs ← outs.mapM valueOf
+    pure ⟨ins, outs⟩
+  | _ => none
+
+def attrOf : Sexp → Option (Option String)
+  | .atom "none" => some none
+  | x => (Sexp.str? x).map some
+
+def handle (args : List Sexp) : String :=
+  match args with
+  | [.atom "eval", hp, agg, .list names, .list ovals, .list defaults, .list rules] =>
+    match attrOf hp, attrOf agg, names.mapM Sexp.chars?, ovals.mapM cellOf, defaults.mapM cellOf,
+        rules.mapM ruleOf with
+    | some hp, some agg, some names, some ovals, some defaults, some rules =>
+      match parseHitPolicy hp agg with
+      | none => "(bad-hit-policy)"
+      | some p =>
+        let t : Table := ⟨p, names, ovals, defaults, rules⟩
+        let n := (Spec.matchingRules t).length
+        s!"({outcomeStr (evaluate t)} {valueStr (Spec.evaluate t)} {n})"
+    | _, _, _, _, _, _ => "(error bad-argument)"
+  | _ => "(error bad-request)"
 
 end Dmn.Driver.C03
